@@ -615,6 +615,9 @@ func run(args []string) int {
 				fmt.Printf("KNOWN-FINDING: property=%s %s [%s] (seen in %d run(s), e.g. index %d)\n", prop, f.What, f.Signature, total.Own[sig], recs[0].Index)
 			}
 			knownSeen[f.Signature] += total.Own[sig]
+			if os.Getenv("VCHECK_SHOW_KNOWN") != "" {
+				fmt.Printf("  known: %s (%d run(s)) matches %s\n", sig, total.Own[sig], f.Signature)
+			}
 			continue
 		}
 		exit = 1
